@@ -24,7 +24,8 @@ import struct
 STREAMS = ['binary-cuts', 'binary-random', 'binary-coalesced', 'binary-malformed',
            'lines-scripted', 'handoff-real-client', 'handoff-real-server', 'handoff-cuts', 'handoff-bigtail', 'handoff-stub', 'binary-unparsable']
 THEOREMS = ['binary_partition_independent', 'frames_of_messages', 'line_partition_independent',
-            'handoff', 'loop_bounded']
+            'handoff', 'loop_bounded', 'delivers_messages_sent', 'delivers_messages_sent_after_handshake',
+            'model_control_flow_matches_source']
 TRUSTED_BASE = [
     'bytes.split / bytes.join / slicing / struct.unpack("I") mirrored by hand in Proto/Framing.lean '
     '(validated by the correspondence streams)',
